@@ -113,6 +113,16 @@ func (z *Decimal) scan(r io.ByteScanner, base int) (f *Decimal, b int, err error
 	}
 	// exp consumed - not needed anymore
 
+	// A negative binary exponent, applied below, lowers the decimal exponent
+	// by up to one digit per bit: an integer mantissa just above the range
+	// (0b1001.1e2147483646 is 19e2147483646/2) may still denote a value
+	// inside it. Keep the excess aside until the division is done.
+	excess := int64(0)
+	if exp2 < 0 && exp10 > MaxExp && exp10-MaxExp <= -exp2 {
+		excess = exp10 - MaxExp
+		exp10 = MaxExp
+	}
+
 	// apply 10**exp10 (a binary exponent is applied below; like math/big,
 	// reject one that does not fit the exponent type)
 	if MinExp <= exp10 && exp10 <= MaxExp && MinExp <= exp2 && exp2 <= MaxExp {
@@ -140,6 +150,12 @@ func (z *Decimal) scan(r io.ByteScanner, base int) (f *Decimal, b int, err error
 		z.Quo(z, p.pow2(uint64(-exp2)))
 	} else {
 		z.Mul(z, p.pow2(uint64(exp2)))
+	}
+	if excess != 0 && z.form == finite {
+		if int64(z.exp)+excess > MaxExp {
+			return nil, b, fmt.Errorf("exponent overflow")
+		}
+		z.exp += int32(excess)
 	}
 
 	return
